@@ -284,6 +284,7 @@ class Fn:
     def __init__(self, node: ast.FunctionDef, iface: dict, coq_name: str, ctx: "Ctx | None" = None):
         self.ctx = ctx
         self.fold_k = []
+        self.narrow_stack = []  # (python name, its entry outside the narrowing, the narrowed coq name)
         self.params = []
         self.param_defaults = {}
         import copy
@@ -950,13 +951,13 @@ class Fn:
             return self.wrap(hoist, f"Ok {t}", mode)
         if isinstance(s, ast.Break):
             if mode == "fold":
-                return self.fold_k[-1](env).replace("Ok (BNext ", "Ok (BBreak ", 1)
+                return self.fold_k[-1](self.unnarrow(env)).replace("Ok (BNext ", "Ok (BBreak ", 1)
             if mode != "loop":
                 raise Unsupported("break outside a generator loop")
             return "SBreak"
         if isinstance(s, ast.Continue):
             if mode == "fold":
-                return self.fold_k[-1](env)
+                return self.fold_k[-1](self.unnarrow(env))
             if mode != "each":
                 raise Unsupported("continue")
             return "Ok tt"
@@ -1040,6 +1041,14 @@ class Fn:
         if isinstance(s, ast.For):
             return self.for_(s, rest, env, k, mode)
         raise Unsupported(f"statement {type(s).__name__}")
+
+    def unnarrow(self, env):
+        """leaving a loop iteration from inside a branch where an optional was narrowed: the loop state is the optional itself"""
+        e2 = dict(env)
+        for x, outer, vname in self.narrow_stack:
+            if e2.get(x, (None,))[0] == vname:
+                e2[x] = outer
+        return e2
 
     def assign(self, target, value, env, cont, mode):
         hoist = []
@@ -1130,9 +1139,9 @@ class Fn:
                     raise Unsupported(f"{n} not defined on every path")
                 ty = env_b[n][1]
                 if n in types and types[n] != ty:
-                    if types[n] == ("L", None) and isinstance(ty, tuple) and ty[0] == "L":
+                    if types[n] in (("L", None), ("O", None)) and isinstance(ty, tuple) and ty[0] == types[n][0]:
                         pass
-                    elif ty == ("L", None) and isinstance(types[n], tuple) and types[n][0] == "L":
+                    elif ty in (("L", None), ("O", None)) and isinstance(types[n], tuple) and types[n][0] == ty[0]:
                         ty = types[n]
                     else:
                         raise Unsupported(f"{n} has different types on different paths")
@@ -1168,7 +1177,11 @@ class Fn:
                     e2[x] = env[x]
                 return join_k(e2)
 
-            a = self.block(some_stmts, envS, drop_narrow, mode)
+            self.narrow_stack.append((x, env[x], vname))
+            try:
+                a = self.block(some_stmts, envS, drop_narrow, mode)
+            finally:
+                self.narrow_stack.pop()
             b = self.block(none_stmts, dict(env), join_k, mode)
             core = f"match {tx} with\n| Some {vname} =>\n{a}\n| None =>\n{b}\nend"
         else:
@@ -1191,7 +1204,11 @@ class Fn:
                         e2[x] = env[x]
                     return join_k(e2)
 
-                a = self.block(t_stmts, envS, drop_t, mode)
+                self.narrow_stack.append((x, env[x], vname))
+                try:
+                    a = self.block(t_stmts, envS, drop_t, mode)
+                finally:
+                    self.narrow_stack.pop()
                 b1 = self.block(f_stmts, dict(env), join_k, mode)
                 b2 = self.block(f_stmts, dict(env), join_k, mode)
                 core = f"match {tx} with\n| Some {vname} =>\nif {self.truthy(vname, ty[1])}\nthen {a}\nelse {b1}\n| None =>\n{b2}\nend"
@@ -1296,9 +1313,9 @@ class Fn:
 
         def k_body(e):
             for n in state:
-                if isinstance(e[n][1], tuple) and e[n][1][0] == "L" and e[n][1][1] is not None:
+                if isinstance(e[n][1], tuple) and e[n][1][0] in ("L", "O") and e[n][1][1] is not None:
                     final[n] = e[n][1]
-                if e[n][1] != env[n][1] and not (env[n][1] == ("L", None) and isinstance(e[n][1], tuple) and e[n][1][0] == "L"):
+                if e[n][1] != env[n][1] and not (env[n][1] in (("L", None), ("O", None)) and isinstance(e[n][1], tuple) and e[n][1][0] == env[n][1][0]):
                     raise Unsupported(f"loop changes the type of {n}")
             return f"Ok (BNext {st_val(e)})"
 
@@ -1313,7 +1330,7 @@ class Fn:
         for n in self.assigned(s.body):
             if n not in state:
                 env_after.pop(n, None)
-        sty = {n: (final.get(n, env[n][1]) if env[n][1] == ("L", None) else env[n][1]) for n in state}
+        sty = {n: (final.get(n, env[n][1]) if env[n][1] in (("L", None), ("O", None)) else env[n][1]) for n in state}
         for n in state:
             env_after[n] = (env[n][0], sty[n])
         after = self.block(rest, env_after, k, mode)
